@@ -175,7 +175,7 @@ func c05(ctx *core.Ctx) {
 	defer restful.DefaultResponseContentType("")
 	registered := []string{restful.MIME_JSON, restful.MIME_XML}
 	phases := []string{"builtin", "+text/plain", "+application/x-verif", "+concurrent"}
-	headersPer := ctx.N(300, 3000)
+	headersPer := ctx.N(300, 6000)
 	caseIdx := 0
 	for pi, phase := range phases {
 		switch pi {
